@@ -2,12 +2,54 @@
 # C05: every label reference assembles to the address of its label (DESIGN.md section 4, C05).
 from layrun import *
 
+def expand_gaps(shape, vals):
+    out = []; vmap = {}
+    for i, (k, mn, a) in enumerate(shape):
+        if k == K_GAP:
+            g = vals.get(i, 0); out += [(K_IMM, 'LDAC', 305419896)] * (g // 8) + [(K_OPR, 'ADD', 0)] * (g % 8)
+        else: out.append((k, mn, a))
+    return out
+
+def gap_family(ck, L):
+    """structures of R relative references with EVERY gap size symbolic (0..2^20 bytes): the layout fixed point must be
+    consistent and reached within the budget for every distance. R = 1 quick, R <= 2 thorough."""
+    Rs = (1,) if ck.tier == 'quick' else (1, 2)
+    shapes = [gap_shape(st_) for R in Rs for st_ in gap_structures(R)]
+    results = run_gap_shapes(shapes)
+    for res in results:
+        if 'error' in res: ck.fail_inconclusive(f"gap shape: {res['error']}"); continue
+        s_ = res['stats']
+        ck.cov['paths'] += s_['paths']; ck.cov['paths_cut'] += s_['cut']; ck.cov['queries'] += s_['queries']; ck.cov['solver_s'] += s_['solver_s']
+        ck.cov['ir_steps'] += s_['steps']; ck.cov['obligations'] += s_['obligations']; ck.cov['discharged'] += s_['discharged']
+        if len(ck.final_queries) < 6: ck.final_queries += res.get('smt', [])[:1]
+        seen = set()
+        for cat, what, vals in res['findings']:
+            sk = shape_key([x for x in res['shape'] if x[0] != K_GAP]) + ' +gaps'
+            key = f"{cat}:{sk}"
+            if key in seen: continue
+            seen.add(key)
+            concrete = expand_gaps(res['shape'], vals)
+            src = shape_text(concrete)
+            try:
+                out, _ = run_native(L.native(), src + "----\n", timeout=30); line = out.strip().split('\n')[0] if out.strip() else 'error no output'
+                bad = concrete_check(L, concrete, {}, line); confirmed = any(c == cat for c, w in bad) or cat == 'crash' and line.startswith('error')
+            except subprocess.TimeoutExpired:
+                line = 'native assembler did not terminate within 30 s'; confirmed = (cat == 'hang')
+            rp = ck.replay_file(key, {'gaps': vals, 'source_lines': len(src.split('\n')), 'native': line[:300], 'engine_finding': what})
+            ck.violation(key, f"{what} [structure {sk}; gap sizes {vals}]", rp, confirmed)
+    ck.cov['gap_structures'] = len(shapes)
+    ck.sample({'family': 'symbolic gap sizes', 'structures': len(shapes), 'gap_range': '0..2^20 bytes each', 'references': max(Rs)})
+
 def main():
     ck = Check('C05', 'other')
     L, shapes, results = run_family(ck, 'C05')
+    gap_family(ck, L)
     ck.assume("programs are built with the real directive constructors (the parser is covered separately in C10); immediates and DATA words are 32-bit symbols",
               "shapes: all programs of up to N directives over {label A|B, DATA, imm, relative ref, absolute ref, OPR, FUNC} modulo label renaming, with one representative "
               "of the relative (BR,BRZ,BRN,LDAP,LDAI,LDBI,STAI) and absolute (LDAM,LDBM,STAM,LDAC,LDBC) mnemonic classes rotated through; N = 3 quick, 4 thorough; plus boundary programs",
+              "gap family: R relative references and their labels in every arrangement with a Padding directive of symbolic size (0..2^20 bytes) before, between and after them, layout only (emit off): "
+              "z3 proves on every path that offsets are cumulative, each reference satisfies offset + size + operand == label address and its operand fits the size chosen; R = 1 quick, R <= 2 thorough. "
+              "Interlocking chains of three or more references at symbolic distances are outside (path count grows as 8^R per pass)",
               "duplicate definitions of a label are outside (which definition is 'its label' is not defined)",
               "std::fstream replaced by a byte sink; rb-tree rebalancing replaced by BST insertion; error constructors keep their type and lose their text",
               "step budget 300000 + 4000 x directives IR instructions per path (about 25 layout passes): paths cut there are reported as possible non-termination, never as success")
